@@ -864,6 +864,21 @@ def check_compare(ctx, u, alts):
                     cond, then, els = if_parts(st)
                     if any(y is x for y in walk(cond)) and _is_unordered(then):
                         mism = True
+                hv = enclosing(x, ('VarDecl',))
+                if hv is not None and enclosing(x, ('IfStmt',)) is not enclosing(hv, ('IfStmt',)):
+                    hv = None
+                if hv is not None:
+                    # the verdict is held in a local and tested by a later `if`
+                    for st in walk(b):
+                        if st.get('kind') == 'IfStmt':
+                            cond, then, els = if_parts(st)
+                            c0 = strip(cond)
+                            ne = (c0.get('kind') == 'CXXOperatorCallExpr' and call_name(c0) == 'operator!=') or (c0.get('kind') == 'BinaryOperator' and c0.get('opcode') == '!=') or \
+                                 (c0.get('kind') in ('CXXRewrittenBinaryOperator', 'UnaryOperator') and '!=' in src_text(c0, 200) and '==' not in src_text(c0, 200).replace('!=', ''))
+                            refs = any(y.get('kind') == 'DeclRefExpr' and (y.get('referencedDecl') or {}).get('id') == hv['id'] for y in walk(cond))
+                            eqv = any(y.get('kind') == 'DeclRefExpr' and (y.get('referencedDecl') or {}).get('name') == 'equivalent' for y in walk(cond))
+                            if ne and refs and eqv and _is_unordered(then):
+                                mism = True
             rets = [x for x in walk(b) if x.get('kind') == 'ReturnStmt']
             last_eq = bool(rets) and any(y.get('kind') == 'DeclRefExpr' and (y.get('referencedDecl') or {}).get('name') == 'equivalent' for y in walk(rets[-1])) and rets[-1].get('_p') is b
             ctx.check(mism and last_eq, R, lab + '|verdicts', f, 'value mismatch -> unordered; all keys matched -> equivalent', 'the dict comparator does not return unordered on a value mismatch and equivalent only after every key matched')
